@@ -175,10 +175,41 @@ def one_lookup(ctx, mi, src, loc, exists):
     if rid != gid:
         tag = "not_found" if got is None else ("found_nonexistent" if ref is None else "wrong_node")
         ctx.report(dict(base, field="lookup", tag=tag, expected=str(rid), observed=str(gid), param=".".join(path)), replay)
+    from doctrans.ast_utils import RewriteAtQuery
+
+    if not exists and ref is None:
+        # a replacement addressed at a location that does not exist changes nothing and says so
+        try:
+            tree0 = ast_parse(src, skip_docstring_remit=True)
+            rw0 = RewriteAtQuery(search=list(path), replacement_node=ast.AnnAssign(
+                target=ast.Name("ZQ_MARK", ast.Store()), annotation=ast.Name("int", ast.Load()), value=None, simple=1))
+            new0 = ast.fix_missing_locations(rw0.visit(tree0))
+        except Exception:
+            new0 = None  # refusing is fine
+        ctx.event("RewriteAtQuery_nonexistent")
+        # the listed pair-label finding: some definition anywhere in the module holds a member of that name, so
+        # (parent simple name, own name) equals the last two components of the search
+        pairs = set()
+        for P in ast.walk(plain):
+            if isinstance(P, (ast.ClassDef, ast.FunctionDef)):
+                for st in ast.walk(P):
+                    if st is P:
+                        continue
+                    if isinstance(st, (ast.ClassDef, ast.FunctionDef)):
+                        pairs.add((P.name, st.name))
+                    elif isinstance(st, ast.AnnAssign) and isinstance(st.target, ast.Name):
+                        pairs.add((P.name, st.target.id))
+                    elif isinstance(st, ast.Assign):
+                        pairs.update((P.name, t.id) for t in st.targets if isinstance(t, ast.Name))
+                    elif isinstance(st, ast.arg):
+                        pairs.add((P.name, st.arg))
+        base["alias_before_target"] = len(path) >= 2 and tuple(path[-2:]) in pairs
+        if new0 is not None and "ZQ_MARK" in ast.dump(new0):
+            ctx.report(dict(base, field="replace", tag="replaced_at_nonexistent_location", replaced_flag=rw0.replaced, expected="unchanged", observed="a node was replaced",
+                            param=".".join(path)), replay)
     if not exists or ref is None:
         return
     # replacement: exactly one node, the right one
-    from doctrans.ast_utils import RewriteAtQuery
 
     try:
         tree2 = ast_parse(src, skip_docstring_remit=True)
@@ -330,7 +361,12 @@ def run(ctx):
                 continue
             base_path = list(pick["path"])
             how = ctx.rng.random()
-            if how < 0.4:
+            tops = [l["path"][0] for l in locs if len(l["path"]) == 1 and l["kind"] in ("class", "function")]
+            leaves = [l["path"][-1] for l in locs if l["kind"] in ("assign", "annassign")]
+            if how < 0.25 and tops and leaves:
+                # a module-level name read as if it were a member of a definition that does not hold it
+                base_path = [ctx.rng.choice(tops), ctx.rng.choice(leaves)]
+            elif how < 0.4:
                 base_path[-1] = base_path[-1] + "_zqmissing"
             elif how < 0.7:
                 base_path = ["ZqNoSuch"] + base_path[1:]
